@@ -80,12 +80,27 @@ namespace vf
         std::unique_ptr<va::IGraph> graph;
     };
 
+    // A base-level SET has no order: hand it over in a scrambled (deterministic, not ascending)
+    // order, so that code relying on sorted input is exercised (seeded change C19-E).  No byte of
+    // the case is consumed.
+    inline std::vector<size_t> scrambled(std::vector<size_t> bl)
+    {
+        const uint64_t salt = 0x9E3779B97F4A7C15ULL * (bl.size() + 1);
+        std::sort(bl.begin(), bl.end(), [salt](size_t a, size_t b) {
+            uint64_t ka = (static_cast<uint64_t>(a) + 1) * 0xD6E8FEB86659FD93ULL ^ salt, kb = (static_cast<uint64_t>(b) + 1) * 0xD6E8FEB86659FD93ULL ^ salt;
+            ka ^= ka >> 29;
+            kb ^= kb >> 29;
+            return ka != kb ? ka < kb : a < b;
+        });
+        return bl;
+    }
+
     inline void apply_settings(va::IGraph& g, const FlowCase& fc)
     {
         if (!fc.mask.empty())
             g.set_mask(fc.mask);
         if (fc.bi.is_explicit)
-            g.set_base_levels(fc.bl);
+            g.set_base_levels(scrambled(fc.bl));
     }
 
     inline Built build(const FlowCase& fc, const std::vector<OpSpec>& ops, vh::Ctx& c)
@@ -425,10 +440,20 @@ namespace vf
             g.set_mask(mk);
             what += " set_mask(" + vg::describe_mask(mk) + ")";
         }
+        // a new mask may cover base levels: they stay in the set (masked nodes are not part of the
+        // flow graph and count for nothing - and count again once a later mask uncovers them:
+        // seeded change C05-F) unless no unmasked base level is left, or the caller's domain wants
+        // a base level in every unmasked component
         bool need_bl = kind == 1 || kind == 3;
-        for (auto b : fc.bl)
-            if (fc.masked(b))
+        if (kind == 2)
+        {
+            bool any_unmasked = false;
+            for (auto b : fc.bl)
+                if (!fc.masked(b))
+                    any_unmasked = true;
+            if (!any_unmasked || every_component)
                 need_bl = true;
+        }
         if (need_bl)
         {
             vg::BaseInfo bi;
@@ -466,7 +491,7 @@ namespace vf
                 nbl = vg::gen_base_levels(s, fc.m, fc.mask, every_component, &bi);
             fc.bl = nbl;
             fc.bi.is_explicit = true;
-            g.set_base_levels(nbl);
+            g.set_base_levels(scrambled(nbl));
             what += " set_base_levels(" + vg::describe_set(nbl) + ")";
         }
         finish_case(fc);
